@@ -628,6 +628,10 @@ def run_history(alpha: Alphabet, seed: int, length: int, kinds=None) -> Sim:
             if blocks and rng.random() < 0.9:
                 p = rng.choice(blocks)
                 p = (p[0], rng.choice(list(c[p].location)))
+                if rng.random() < 0.2:
+                    p = (p[0] - c.num_cycles, p[1])
+                if rng.random() < 0.1:
+                    p = (p[0], p[1] - c.num_qudits)
             else:
                 p = rand_point(sim, c)
             try:
